@@ -222,26 +222,21 @@ def ensembles_reduce_by_position(ctx):
         's=%s._allSolvers[lr]' % sn in src
     ctx.check(good, 'AbstractEnsembleSolver.__update_allSolvers', 'result popped from position k is written to slot k',
               'results are no longer written back to the slot they came from', g, g.node)
-    h = ctx.func(E + '.__update_bestSolver')
-    sn = selfname_of(h)
-    loops = [n for n in walk_no_nested(h.node) if isinstance(n, ast.For)]
-    ctx.need(loops, 'no scan loop in __update_bestSolver')
-    it = ''.join(unparse(loops[0].iter).split())
-    tests = [n for n in walk_no_nested(loops[0]) if isinstance(n, ast.If) and isinstance(n.test, ast.Compare)]
     # the tie rule must make the outcome a function of the slots alone: with `<=` the last slot holding the minimum wins whatever
     # the incumbent was; with a strict `<` an incumbent that ties keeps its place, so the answer depends on the history of earlier
     # reductions (step-wise mode reduces after every step, run-to-completion once)
-    var = loops[0].target.id if isinstance(loops[0].target, ast.Name) else 'solver'
-    bld = T.Builder()
-    for st in loops[0].body:
-        if isinstance(st, ast.Assign) and isinstance(st.targets[0], ast.Name):
-            bld.exec_stmt(st)
-    inc = ('call', ('name', 'getattr'), (('attr', ('name', sn), '_bestSolver'), ('const', 'bestEnergy'), ('attr', ('name', sn), 'bestEnergy')), ())
-    cmp_ok = bool(tests) and T.simp(bld.t(tests[0].test)) == T.mk_cmp('<=', ('attr', ('name', var), 'bestEnergy'), inc)
-    ctx.check(it in ('%s._allSolvers[:]' % sn, '%s._allSolvers' % sn) and cmp_ok, 'AbstractEnsembleSolver.__update_bestSolver',
+    from .c09 import best_member_scan, incumbent_term
+    r = best_member_scan(ctx)
+    h, sn = r['f'], r['sn']
+    inc = incumbent_term(sn)
+    bad = None
+    for p, val, lits, node, member in r['stores']:
+        if (T.mk_cmp('<=', ('attr', member, 'bestEnergy'), inc), True) not in lits:
+            bad = (node, lits)
+    ctx.check(r['iter_ok'] and bool(r['stores']) and bad is None, 'AbstractEnsembleSolver.__update_bestSolver',
               'scans all slots in index order, keeps a member under member.bestEnergy <= incumbent (ties: the last slot wins, independent of the incumbent)',
-              'best-member scan is over %s with test %s: on an exact tie the outcome depends on which member was the incumbent, i.e. on the history of earlier reductions'
-              % (it, unparse(tests[0].test) if tests else None), h, tests[0] if tests else loops[0])
+              'best-member scan over %s replaces the best under %s: on an exact tie the outcome depends on which member was the incumbent, i.e. on the history of earlier reductions'
+              % (T.show(r['iter']), [(T.show(c)[:50], tr) for c, tr in (bad[1] if bad else [])][:3]), h, bad[0] if bad else r['loop'])
 
 
 @rule('C07.e', min_instances=4)
